@@ -116,6 +116,10 @@ type Morass struct {
 	pool      chan sorter
 	writable  chan sorter
 
+	// writers counts the chunk writers started by Push
+	// that have not yet finished.
+	writers sync.WaitGroup
+
 	filesLock sync.Mutex
 	files     files
 
@@ -181,7 +185,11 @@ func (m *Morass) Push(e LessInterface) error {
 	if len(m.chunk) == m.chunkSize {
 		verifStep("push-handoff", nil, 0)
 		m.writable <- m.chunk
-		go m.write()
+		m.writers.Add(1)
+		go func() {
+			defer m.writers.Done()
+			m.write()
+		}()
 		m.chunk = <-m.pool
 		verifStep("push-got-buffer", nil, 0)
 		if err := m.err(); err != nil {
@@ -262,6 +270,7 @@ func (m *Morass) Len() int64 { return m.len }
 // and write out final data.
 func (m *Morass) Finalise() error {
 	verifStep("finalise-entry", nil, 0)
+	m.writers.Wait()
 	if err := m.err(); err != nil {
 		return err
 	}
